@@ -625,7 +625,7 @@ class ThermalProperties(ThermalPropertiesBase):
         entropy = []
         cv = []
         for t in self._temperatures:
-            props = self._get_py_thermal_properties(t)
+            props = [np.sum(x) for x in self._get_py_thermal_properties(t)]
             fe.append(props[0])
             entropy.append(props[1] * 1000)
             cv.append(props[2] * 1000)
